@@ -84,30 +84,65 @@ def sibling_prep(chk, P, pairs, rule="R-SIBLING"):
     return n
 
 
-def list_unlink(chk, P, funcs, unit, rule="R-UNLINK"):
-    """doubly linked list removal updates both neighbours or head/tail in all cases"""
+def unlinkers(P, unit, head="first_dist", tail="last_dist"):
+    """functions that remove a node from the doubly linked list: they assign the list head/tail or a neighbour's link from the
+    removed node's own links (X->next / X->prev, possibly cached in a local); appenders assign the head/tail from the new node"""
+    out = []
+    for f in P.unit(unit).funcs(only_main=True):
+        if f.entry is None:
+            continue
+        # locals caching a node's link:  next = dist->next
+        linkvars = set()
+        for n in f.walk():
+            tgt = rhs = None
+            a = assigned(n)
+            if a and a[1] == "=" and a[2] is not None:
+                tgt, rhs = lv(a[0]), strip(a[2])
+            elif n["k"] == "Var" and n.get("c") and n["c"][0] is not None:
+                tgt, rhs = n["n"], strip(n["c"][0])
+            if tgt and rhs is not None and rhs["k"] == "Member" and rhs["f"] in ("next", "prev"):
+                linkvars.add(tgt)
+        hit = False
+        for n in f.walk():
+            a = assigned(n)
+            if not a or a[1] != "=" or a[2] is None:
+                continue
+            k = lv(a[0]) or ""
+            r = strip(a[2])
+            from_link = (r["k"] == "Member" and r["f"] in ("next", "prev")) or (r["k"] == "Ref" and r["n"] in linkvars)
+            if from_link and (k.endswith("->" + head) or k.endswith("->" + tail) or k.endswith("->prev->next") or k.endswith("->next->prev")
+                              or (k.split("->")[0] in linkvars and k.endswith(("->prev", "->next")))):
+                hit = True
+        if hit:
+            out.append(f)
+    return out
+
+
+def list_unlink(chk, P, funcs, unit, rule="R-UNLINK", head="first_dist", tail="last_dist"):
+    """doubly linked list removal updates both neighbours or head/tail in all cases.  funcs: names that MUST be among the
+    discovered unlinkers (anchors); every discovered unlinker is checked."""
     n = 0
+    found = unlinkers(P, unit, head, tail)
+    names = [f.name for f in found]
     for fname in funcs:
-        f = P.need_func(fname, unit)
-        keys = set()
-        for x in f.walk():
-            a = assigned(x)
-            if a:
-                k = lv(a[0])
-                if k:
-                    keys.add(re.sub(r"^[A-Za-z_0-9]+->", "", k) if "->" in k else k)
-        need = {"prev->next", "first_dist", "next->prev", "last_dist"}
+        if fname not in names:
+            chk.broke("%s: %s is no longer recognised as removing a node from the %s/%s list" % (rule, fname, head, tail))
+    for f in found:
+        full = set(lv(assigned(x)[0]) for x in f.walk() if assigned(x) and assigned(x)[1] == "=" and lv(assigned(x)[0]))
         have = set()
-        for k in keys:
-            for nd in need:
-                if k.endswith(nd) or (nd == "next->prev" and k.endswith("->prev") and not k.endswith("prev->prev")) or (nd == "prev->next" and k.endswith("->next") and "prev" in k):
-                    have.add(nd)
-        # keys were stripped of their first component: recompute on the full lvalues
-        full = set(lv(assigned(x)[0]) for x in f.walk() if assigned(x) and lv(assigned(x)[0]))
-        if any(k.endswith("->prev") for k in full):
-            have.add("next->prev")
+        for k in full:
+            if k.endswith("->" + head):
+                have.add(head)
+            if k.endswith("->" + tail):
+                have.add(tail)
+            if k.endswith("->next") and k.count("->") >= 1 and not k.endswith("->" + head):
+                have.add("prev->next")
+            if k.endswith("->prev"):
+                have.add("next->prev")
+        need = {"prev->next", head, "next->prev", tail}
         n += 1
-        chk.inst(rule, f, "unlink-complete", have == need, "removal updates prev->next / first_dist and next->prev / last_dist (found %s)" % sorted(have))
+        chk.inst(rule, f, "unlink-complete", have == need, "removing a node updates the predecessor's next or the list head AND the successor's prev or the list tail "
+                 "(found writes to %s; missing %s)" % (sorted(have), sorted(need - have)))
     return n
 
 
